@@ -220,7 +220,7 @@ struct World {
     nats: BTreeMap<Uuid, u64>,
     client_secret: String,
     now: u128,
-    cid: u64,
+    cid: u128,
 }
 
 #[derive(Default)]
@@ -581,7 +581,9 @@ impl<'a> Run<'a> {
 
     /// One model write on account index `a` at `t`.
     fn mw(&mut self, a: usize, t: u128, rest: &str) {
-        self.w.cid += 1;
+        // the change id of a write transaction is its timestamp, kept strictly increasing
+        // (`Cid::new_lamport`); revocations are stamped with it and the trim compares against it
+        self.w.cid = std::cmp::max(t, self.w.cid + 1);
         let cid = self.w.cid;
         let r = self.model(&format!("w {} {t} {cid} {rest}", a + 1));
         if r != "ok" {
@@ -594,7 +596,16 @@ impl<'a> Run<'a> {
         for a in 0..3usize {
             let real = self.w.read(a).await;
             let (rc, ru, ro) = (self.w.show_creds(&real), self.w.show_uats(&real), self.w.show_o2s(&real));
-            let (mc, mu, mo) = (self.model(&format!("creds {}", a + 1)), self.model(&format!("uats {}", a + 1)), self.model(&format!("o2s {}", a + 1)));
+            let (mc, mut mu, mo) = (self.model(&format!("creds {}", a + 1)), self.model(&format!("uats {}", a + 1)), self.model(&format!("o2s {}", a + 1)));
+            // an *empty* login-session attribute is absent or an empty map depending on the entry
+            // cache / store round trip (D27): the representation is an input of the model
+            if (ru == "absent" && mu == "-") || (ru == "-" && mu == "absent") {
+                let r = self.model(&format!("rep {} {}", a + 1, if ru == "absent" { "absent" } else { "empty" }));
+                if r == "ok" {
+                    mu = ru.clone();
+                    self.out.count("empty-session-attribute-representation");
+                }
+            }
             if rc != mc {
                 self.fail("impl-vs-model", "unclassified", format!("{mc}  (model credential ids of account {})", a + 1), rc.clone());
             }
@@ -1293,7 +1304,7 @@ fn gen_history(r: &mut Rng, len: usize, bias: bool) -> Vec<String> {
                 4 => 299 * NS,
                 5 => 301 * NS,
                 6 => 1000 * NS,
-                7 => 20 * 3600 * NS,
+                7 => if r.chance(1, 4) { 8 * DAY + r.below(1000) as u128 * NS } else { 20 * 3600 * NS },
                 8 => r.below(600) as u128 * NS,
                 _ => r.below(5) as u128 * NS,
             };
@@ -1422,6 +1433,17 @@ fn scripted() -> Vec<(String, Vec<String>)> {
     out.push(("no-login-sessions".into(), s(&[
         format!("fabgrant 2 - 57600 {t}"), format!("touch 2 {}", t + g - 1), format!("touch 2 {}", t + g),
     ])));
+    // the trim every write starts with: a revocation older than 7 days is dropped; more than 48 sessions: the oldest go
+    out.push(("trim-stale".into(), s(&[
+        format!("login 1 {t}"), format!("record 0 {}", t + 1), format!("fab 1 prim 0 - {}", t + 2), format!("revoke 0 {}", t + NS),
+        format!("touch 1 {}", t + NS + 7 * DAY - 1), format!("touch 1 {}", t + NS + 7 * DAY), format!("touch 1 {}", t + NS + 7 * DAY + 1), format!("delprim 1 {}", t + 8 * DAY),
+        format!("touch 1 {}", t + 16 * DAY),
+    ])));
+    let mut many: Vec<String> = (0..50u128).map(|i| format!("fab 2 prim 0 - {}", t + i)).collect();
+    many.push(format!("fabgrant 2 s0 57600 {}", t + 60));
+    many.push(format!("touch 2 {}", t + NS));
+    many.push(format!("touch 2 {}", t + 60 + g));
+    out.push(("trim-forced".into(), many));
     // healthy sessions are left alone across a day of writes; the one-day login session expires
     out.push(("healthy".into(), s(&[
         format!("login 1 {t}"), format!("record 0 {}", t + 1), format!("grant 0 {}", t + 2), format!("addpk 1 2 {}", t + 3), format!("fab 1 pk 2 - {}", t + 4),
@@ -1454,10 +1476,19 @@ fn main() {
         histories.push(("replay".into(), ops));
     } else {
         histories.extend(scripted());
-        let n = args.cases(14, 220);
+        // regression corpus (witnesses of recorded findings), replayed on every run
+        let dir = concat!(env!("CARGO_MANIFEST_DIR"), "/../../corpus/C36");
+        let mut files: Vec<std::path::PathBuf> = std::fs::read_dir(dir).map(|d| d.filter_map(|e| e.ok().map(|e| e.path())).collect()).unwrap_or_default();
+        files.sort();
+        for f in files.iter().filter(|f| f.extension().map(|x| x == "json").unwrap_or(false)) {
+            let v: Json = serde_json::from_str(&std::fs::read_to_string(f).unwrap()).unwrap();
+            let ops: Vec<String> = v["input"]["ops"].as_array().expect("corpus input.ops").iter().map(|x| x.as_str().unwrap().to_string()).collect();
+            histories.push(("corpus".into(), ops));
+        }
+        let n = args.cases(10, 200);
         for i in 0..n {
             let mut r = Rng::for_case(args.seed, i);
-            let len = if args.thorough() { r.range(10, 60) } else { r.range(10, 40) } as usize;
+            let len = if args.thorough() { r.range(10, 60) } else { r.range(10, 36) } as usize;
             histories.push(("random".into(), gen_history(&mut r, len, args.budget > 1)));
         }
     }
